@@ -157,7 +157,19 @@ var templates = []template{
 	}},
 	{"discovery-notify-partial-add", func(t *rapid.T, e *env, p *world.Peer) model.DatagramType {
 		ent := world.EntSpec{Addr: []uint{3}, Type: model.EntityTypeTypeEV, Feats: []world.FeatSpec{{ID: 1, Type: model.FeatureTypeTypeMeasurement, Role: model.RoleTypeClient}}}
-		return p.Msg(model.CmdClassifierTypeNotify, p.NM(), world.LocalNM(), false, nil, discoveryNotify(p, []world.EntSpec{ent}, &added, true))
+		d := p.Msg(model.CmdClassifierTypeNotify, p.NM(), world.LocalNM(), false, nil, discoveryNotify(p, []world.EntSpec{ent}, &added, true))
+		// the address of the new entity: as it should be, present but empty, or oddly deep
+		switch rapid.IntRange(0, 5).Draw(t, "newEntityAddress") {
+		case 0:
+			if data := d.Payload.Cmd[0].NodeManagementDetailedDiscoveryData; data != nil && len(data.EntityInformation) > 0 && data.EntityInformation[0].Description != nil && data.EntityInformation[0].Description.EntityAddress != nil {
+				data.EntityInformation[0].Description.EntityAddress.Entity = []model.AddressEntityType{}
+			}
+		case 1:
+			if data := d.Payload.Cmd[0].NodeManagementDetailedDiscoveryData; data != nil && len(data.EntityInformation) > 0 && data.EntityInformation[0].Description != nil && data.EntityInformation[0].Description.EntityAddress != nil {
+				data.EntityInformation[0].Description.EntityAddress.Entity = []model.AddressEntityType{3, 0, 0, 0, 0, 0, 7}
+			}
+		}
+		return d
 	}},
 	{"discovery-notify-partial-remove", func(t *rapid.T, e *env, p *world.Peer) model.DatagramType {
 		ent := world.EntSpec{Addr: []uint{2}, Type: model.EntityTypeTypeEVSE}
@@ -373,6 +385,34 @@ func mutate(t *rapid.T, raw []byte, label string) ([]byte, []string) {
 			}
 			if len(sh) > 0 {
 				nodes = sh
+			}
+		}
+		// now and then: a list that is present but empty ("entity":[], "filter":[], "cmd":[] ...), chosen uniformly
+		// among the lists of the message
+		if rapid.IntRange(0, 7).Draw(t, fmt.Sprintf("%s.emptyList%d", label, i)) == 0 {
+			var lists []node
+			for _, x := range nodes {
+				var v any
+				switch p := x.parent.(type) {
+				case map[string]any:
+					v = p[x.key]
+				case []any:
+					v = p[x.idx]
+				}
+				if l, ok := v.([]any); ok && len(l) > 0 {
+					lists = append(lists, x)
+				}
+			}
+			if len(lists) > 0 {
+				n := lists[rapid.IntRange(0, len(lists)-1).Draw(t, fmt.Sprintf("%s.list%d", label, i))]
+				switch p := n.parent.(type) {
+				case map[string]any:
+					p[n.key] = []any{}
+				case []any:
+					p[n.idx] = []any{}
+				}
+				paths = append(paths, "empty-list:"+n.key)
+				continue
 			}
 		}
 		n := nodes[rapid.IntRange(0, len(nodes)-1).Draw(t, fmt.Sprintf("%s.node%d", label, i))]
